@@ -137,6 +137,7 @@ def check(ctx):
     ctx.rule("S3", "no and/or whose value can be non-boolean (rewritten to logical_and/or, which returns booleans)")
     ctx.rule("S4", "no one-argument sum/any/all/min/max over elements that depend on data (rewritten to a whole-array reduction)")
     nif = nred = 0
+    s1_count = {}
     # functions whose array form fails loudly anyway (the where-form evaluates every statement):
     # scalar casts / range / len of data, chained comparisons, dict look-ups keyed by data, loops over
     # data, and the shapes the rewriter itself rejects.  Silently-wrong shapes in them are moot.
@@ -181,7 +182,12 @@ def check(ctx):
                     bad = isinstance(b, ast.AugAssign) and pinned["S1"]
                     ctx.ob("S1", ok=not bad, distinct=(r.qual, ast.unparse(n.test)))
                     if bad:
-                        ctx.violation("S1", f"{r.qual}|if {ast.unparse(n.test)}: {ast.unparse(b)}", loc, f"`if {ast.unparse(n.test)}: {ast.unparse(b)}` has no else: the array form computes `{ast.unparse(b.target)} {_opstr(b.op)}= where(c, {ast.unparse(b.value)}, {ast.unparse(b.target)})` and silently adds the old value where the condition is false")
+                        # keyed by rule, operator and position among the rule's else-less updates with that operator
+                        # (a renamed local or a re-spelt condition is still the same finding)
+                        opname = _opstr(b.op)
+                        ordinal = 1 + sum(1 for m_ in ast.walk(r.node) if isinstance(m_, ast.If) and not m_.orelse and len(m_.body) == 1 and isinstance(m_.body[0], ast.AugAssign)
+                                          and _opstr(m_.body[0].op) == opname and m_.lineno < n.lineno)
+                        ctx.violation("S1", f"{r.qual}|else-less {opname}= #{ordinal}", loc, f"`if {ast.unparse(n.test)}: {ast.unparse(b)}` has no else: the array form computes `{ast.unparse(b.target)} {_opstr(b.op)}= where(c, {ast.unparse(b.value)}, {ast.unparse(b.target)})` and silently adds the old value where the condition is false")
                     continue
                 eb, eo = _eff(b), _eff(o)
                 if not isinstance(eb, (ast.Return, ast.Assign, ast.AugAssign)) or not isinstance(eo, (ast.Return, ast.Assign, ast.AugAssign, ast.If)):
